@@ -19,7 +19,7 @@ EXHAUSTIVE = {}
 
 def generate(rng, tier):
     cases = []
-    n = 2000 if tier == "thorough" else 300
+    n = 2000 * TH if tier == "thorough" else 300
     specs = specs_pool(rng, 30 if tier == "thorough" else 8)
     for k in range(n):
         sp = rng.choice(specs)
